@@ -45,6 +45,8 @@ def h_totals(ctx, skeleton, n, drivers, args=None):
     for d in drivers:
         sym.update(DRIVERS[d](spec))
     env = M.Env(ctx, symbolic=sym)
+    if ctx.symbolic:
+        ctx.assume_nonzero_divisors = False   # here the divisors are proved non-zero (obligation 5) instead of assumed
     objs = M.build(spec, env)
     s = objs["system"]
     V.observe_system(ctx, objs)
